@@ -200,9 +200,13 @@ def _mac_pool(case):
 
 # ------------------------------------------------------------------ O4: IPv4 string level histories with a pre-populated database
 IP_FAMILIES = ["100.100.100.10z", "10.230.230.z", "10.230.230.1z", "9.9.9.z"]
+FREE_FAMILY = "10.d.d.2dd"        # private 10/8 addresses (the network the substitutes are taken from) with symbolic octet digits
 
 
 def gen_family_ip(en, tag, fam):
+    if fam == FREE_FAMILY:
+        d = lambda k, alpha="0123456789": sstr.fresh_str(en, "%s_%s" % (tag, k), 1, alpha)  # noqa
+        return cat("10.", d("c"), ".", d("e"), ".2", d("g", "01234"), d("h"))
     return cat(fam[:-1], sstr.fresh_str(en, tag, 1, "0123456789" if not fam.startswith("10.230.230.z") else "123456789"))
 
 
@@ -437,6 +441,11 @@ def obligations(tier):
         Obligation("O4-ipv4-history", make_iphist(3 if thorough else 2, [0, 9], IP_FAMILIES if thorough else IP_FAMILIES[:2] + IP_FAMILIES[3:]), ["ipv4-consistent"],
                    desc="lines / specs through one cleaner after 0 or 9 earlier addresses: output == simultaneous replacement by the reported mapping; report injective, functional, nothing extra",
                    bounds={"lines": 3 if thorough else 2, "tokens per line": "1-2", "address families": (IP_FAMILIES if thorough else IP_FAMILIES[:2] + IP_FAMILIES[3:]), "recurrence": "any earlier token may recur", "earlier addresses": [0, 9]},
+                   stubs=K.STUBS, outside=outside, encoded=enc[:3] + enc[9:], budget_s=900 if thorough else 200, replay="iphist", check_sample=True,
+                   classify=lambda case: signature(case, True)),
+        Obligation("O4b-ipv4-free-digits", make_iphist(2 if thorough else 1, [0], [FREE_FAMILY, "9.9.9.z"]), ["ipv4-consistent"],
+                   desc="the same statement for private 10/8 addresses with symbolic octet digits (10.d.d.2dd: the network the substitutes come from), alone, twice, or next to another address on a line",
+                   bounds={"lines": 2 if thorough else 1, "tokens per line": "1-2", "address families": [FREE_FAMILY + " (4 symbolic digits)", "9.9.9.z"], "recurrence": "any earlier token may recur", "earlier addresses": [0]},
                    stubs=K.STUBS, outside=outside, encoded=enc[:3] + enc[9:], budget_s=900 if thorough else 200, replay="iphist", check_sample=True,
                    classify=lambda case: signature(case, True)),
         Obligation("O6-ipv6-history", make_ip6hist(2), ["ipv6-consistent"],
